@@ -132,3 +132,31 @@ func init() {
 			Old: "\t\t\t\tn0 := len(b) // offset before calling AppendQuote\n", New: "\t\t\t\tn0 := len(b) // offset before calling AppendQuote\n\t\t\t\tif err := enc.WriteValue(nil); err == nil {\n\t\t\t\t\tcontinue\n\t\t\t\t}\n", Rule: "STALE-3"},
 	)
 }
+
+func init() {
+	addMutants(
+		// ---- C05/C07/C16: NAMES-1, BUF-1, PEEK-1
+		Mutant{ID: "names1-fetch-drops-copy", Props: []string{"C05", "C16"}, File: "jsontext/decode.go", Func: "decoderState.fetch",
+			Old: "\td.Names.copyQuotedBuffer(d.buf)\n", New: "", Rule: "NAMES-1"},
+		Mutant{ID: "names1-flush-copies-after-write", Props: []string{"C07", "C16"}, File: "jsontext/encode.go", Func: "encoderState.Flush",
+			Old: "\te.Names.copyQuotedBuffer(e.Buf)\n\n\t// Specialize bytes.Buffer for better performance.\n\tif bb, ok := e.wr.(*bytes.Buffer); ok {", New: "\tif bb, ok := e.wr.(*bytes.Buffer); ok {", Rule: "NAMES-1"},
+		Mutant{ID: "names1-stackpointer-without-copy", Props: []string{"C16"}, File: "jsontext/decode.go", Func: "decoderState.AppendStackPointer",
+			Old: "\td.Names.copyQuotedBuffer(d.buf)\n", New: "", Rule: "NAMES-1"},
+		Mutant{ID: "buf1-fetch-drops-prevEnd-rebase", Props: []string{"C05", "C16"}, File: "jsontext/decode.go", Func: "decoderState.fetch",
+			Old: "\td.prevEnd -= d.prevStart\n", New: "", Rule: "BUF-1"},
+		Mutant{ID: "buf1-fetch-zeroes-prevStart-first", Props: []string{"C05", "C16"}, File: "jsontext/decode.go", Func: "decoderState.fetch",
+			Old: "\td.baseOffset += int64(d.prevStart)\n\td.prevEnd -= d.prevStart\n\td.prevStart = 0\n", New: "\td.prevEnd -= d.prevStart\n\td.prevStart = 0\n\td.baseOffset += int64(d.prevStart)\n", Rule: "BUF-1"},
+		Mutant{ID: "buf1-flush-empties-on-error", Props: []string{"C07"}, File: "jsontext/encode.go", Func: "encoderState.Flush",
+			Old: "\t\tif n > 0 {\n\t\t\te.Buf = e.Buf[:copy(e.Buf, e.Buf[n:])]\n\t\t}\n", New: "\t\te.Buf = e.Buf[:0]\n", Rule: "BUF-1"},
+		Mutant{ID: "buf1-flush-drops-retention", Props: []string{"C07"}, File: "jsontext/encode.go", Func: "encoderState.Flush",
+			Old: "\t\tif n > 0 {\n\t\t\te.Buf = e.Buf[:copy(e.Buf, e.Buf[n:])]\n\t\t}\n", New: "", Rule: "BUF-1"},
+		Mutant{ID: "buf1-flush-skips-baseoffset", Props: []string{"C07", "C16"}, File: "jsontext/encode.go", Func: "encoderState.Flush",
+			Old: "\tn, err := e.wr.Write(e.Buf)\n\te.baseOffset += int64(n)\n", New: "\tn, err := e.wr.Write(e.Buf)\n", Rule: "BUF-1"},
+		Mutant{ID: "buf1-foreign-writer-of-baseoffset", Props: []string{"C16", "C05"}, File: "jsontext/decode.go", Func: "decoderState.SkipValue",
+			Old: "\tswitch d.PeekKind() {", New: "\td.baseOffset += 0\n\tswitch d.PeekKind() {", Rule: "BUF-1"},
+		Mutant{ID: "peek1-readtoken-keeps-peekerr", Props: []string{"C05"}, File: "jsontext/decode.go", Func: "decoderState.ReadToken",
+			Old: "\t\t\td.peekPos, d.peekErr = 0, nil // possibly a transient I/O error\n", New: "\t\t\td.peekPos = 0\n", Rule: "PEEK-1"},
+		Mutant{ID: "peek1-readvalue-keeps-peekpos", Props: []string{"C05"}, File: "jsontext/decode.go", Func: "decoderState.ReadValue",
+			Old: "\t\td.peekPos = 0 // reset cache\n", New: "", Rule: "PEEK-1"},
+	)
+}
